@@ -1,5 +1,5 @@
 /- Driver ops for C10. -/
-import Driver.Json
+import Driver.Loop
 
 open Lean Model
 
@@ -8,3 +8,5 @@ namespace Driver.C10
 def ops : List (String × Op) := []
 
 end Driver.C10
+
+def main : IO Unit := Driver.runLoop Driver.C10.ops
